@@ -225,7 +225,7 @@ func chainScenarios(yield func(any)) {
 				"signatureAlgorithm": sigFor(rootAlg)}},
 			{alias: "mid", path: "ca/mid.yaml", issuer: 0, cfg: J{"version": 1, "subject": "CN=Mid,O=Chain", "issuer": "root", "keyAlgorithm": midAlg,
 				"signatureAlgorithm": sigFor(rootAlg),
-				"extensions": []J{{"authorityKeyIdentifier": J{"content": J{"id": "hash"}}}, {"subjectKeyIdentifier": J{"content": "hash"}}}}},
+				"extensions":         []J{{"authorityKeyIdentifier": J{"content": J{"id": "hash"}}}, {"subjectKeyIdentifier": J{"content": "hash"}}}}},
 			{alias: "leaf", path: "ca/users/leaf.yml", issuer: 1, cfg: J{"version": 1, "subject": "CN=Leaf,O=Chain", "issuer": "mid", "signatureAlgorithm": sigFor(midAlg),
 				"extensions": []J{{"authorityKeyIdentifier": J{"content": J{"id": "hash"}}}}}},
 			{alias: "leaf2", path: "leaf2.json", issuer: 0, cfg: J{"version": 1, "subject": "CN=Leaf Two", "issuer": "root", "signatureAlgorithm": sigFor(rootAlg)}},
@@ -290,22 +290,120 @@ func chainScenarios(yield func(any)) {
 	}
 }
 
+// profileScenarios: a built root -> leaf hierarchy whose profile is then edited so that the unchanged subject
+// no longer meets it (or still does); the next run, under every flag set, must stop at validation exactly when
+// the subject violates the edited profile; afterwards the profile is restored and the directory must converge.
+func profileScenarios(yield func(any)) {
+	attrs := func(names ...string) []J {
+		var out []J
+		for _, n := range names {
+			if strings.HasSuffix(n, "?") {
+				out = append(out, J{"attribute": strings.TrimSuffix(n, "?"), "optional": true})
+			} else {
+				out = append(out, J{"attribute": n})
+			}
+		}
+		return out
+	}
+	base := J{"version": 1, "name": "org", "subjectAttributes": J{"attributes": attrs("C", "O", "OU?", "CN"), "allowOther": false},
+		"extensions": []J{{"keyUsage": J{"content": []string{"digitalSignature"}}}}}
+	edits := []struct {
+		name string
+		f    func(p J)
+	}{
+		{"drop-O", func(p J) { p["subjectAttributes"] = J{"attributes": attrs("C", "OU?", "CN"), "allowOther": false} }},
+		{"require-OU", func(p J) { p["subjectAttributes"] = J{"attributes": attrs("C", "O", "OU", "CN"), "allowOther": false} }},
+		{"require-OU-allowOther", func(p J) { p["subjectAttributes"] = J{"attributes": attrs("C", "O", "OU", "CN"), "allowOther": true} }},
+		{"reorder", func(p J) { p["subjectAttributes"] = J{"attributes": attrs("CN", "O", "C"), "allowOther": false} }},
+		{"drop-O-allowOther", func(p J) { p["subjectAttributes"] = J{"attributes": attrs("C", "OU?", "CN"), "allowOther": true} }},
+		{"all-optional", func(p J) {
+			p["subjectAttributes"] = J{"attributes": attrs("C?", "O?", "OU?", "CN?"), "allowOther": false}
+		}},
+		{"unconstrained", func(p J) { delete(p, "subjectAttributes") }},
+	}
+	for tier := 0; tier < 2; tier++ {
+		for _, ed := range edits {
+			for _, strat := range []int{defaultStrat, 31, 4, 0} {
+				ents := []entitySpec{
+					{alias: "root", path: "root.yaml", issuer: -1, cfg: J{"version": 1, "subject": "C=DE, O=Org " + fmt.Sprint(rng.Intn(1000)) + ", CN=Root", "profile": "org"}},
+					{alias: "leaf", path: "users/leaf.yaml", issuer: 0, cfg: J{"version": 1, "subject": "C=DE,O=Org,CN=Leaf " + fmt.Sprint(rng.Intn(1000)), "issuer": "root", "profile": "org"}},
+				}
+				if tier == 1 {
+					// only the leaf is constrained by the profile that will be edited
+					ents[0].cfg["profile"] = "other"
+				}
+				prof := profileSpec{name: "org", path: "profiles/org.yaml", cfg: cloneJ(base)}
+				other := cloneJ(base)
+				other["name"] = "other"
+				files := []FileIn{cfgFile(ents[0]), cfgFile(ents[1]), prof.file(), profileSpec{name: "other", path: "profiles/other.json", cfg: other}.file()}
+				steps := []Step{{Op: "run", Strat: defaultStrat}}
+				edited := profileSpec{name: "org", path: prof.path, cfg: cloneJ(base)}
+				ed.f(edited.cfg)
+				f1 := edited.file()
+				steps = append(steps, Step{Op: "write", File: &f1}, Step{Op: "run", Strat: strat})
+				if chance(1, 2) {
+					steps = append(steps, Step{Op: "delete", Path: pemPath(ents[1].path)}, Step{Op: "run", Strat: defaultStrat})
+				}
+				f2 := prof.file()
+				steps = append(steps, Step{Op: "write", File: &f2}, Step{Op: "run", Strat: defaultStrat}, Step{Op: "run", Strat: defaultStrat})
+				yield(HistIn{Tz: choose([]int{0, 7200}), Files: files, Steps: steps})
+			}
+		}
+	}
+}
+
 func genHist(yield func(any)) {
 	chainScenarios(yield)
+	profileScenarios(yield)
 	tzs := []int{0, 3600, -5 * 3600, 19800}
 	strats := []int{defaultStrat, defaultStrat, defaultStrat, 1, 8, 4, 2, 16, 31, 13, 5, 0}
 	for n := 0; n < pick(120, 3000); n++ {
 		size := 1 + rng.Intn(4)
 		ents := genForest(size, cfgOpts{fast: true, maxExt: 3, manip: chance(1, 8)})
+		var profs []profileSpec
+		if chance(1, 2) {
+			profs = attachProfiles(ents)
+		}
 		var files []FileIn
 		for _, e := range ents {
 			files = append(files, cfgFile(e))
+		}
+		for _, p := range profs {
+			files = append(files, p.file())
 		}
 		steps := []Step{{Op: "run", Strat: defaultStrat}}
 		nsteps := 1 + rng.Intn(pick(5, 9))
 		for i := 0; i < nsteps; i++ {
 			e := ents[rng.Intn(len(ents))]
-			switch rng.Intn(10) {
+			r := rng.Intn(10)
+			if len(profs) > 0 && chance(1, 4) {
+				r = 10
+			}
+			switch r {
+			case 10:
+				// the profile of an entity is edited: its subject constraint, its extensions or its validity
+				k := rng.Intn(len(profs))
+				pc := cloneJ(profs[k].cfg)
+				subj := "CN=x"
+				for _, en := range ents {
+					if en.cfg["profile"] == profs[k].name {
+						subj, _ = en.cfg["subject"].(string)
+					}
+				}
+				switch rng.Intn(5) {
+				case 0, 1:
+					pc["subjectAttributes"] = genSubjectAttrs(subj)
+				case 2:
+					// a stricter constraint than any the subject can meet: a required attribute it lacks
+					pc["subjectAttributes"] = J{"attributes": []J{{"attribute": "UID"}, {"attribute": "CN", "optional": true}}, "allowOther": chance(1, 2)}
+				case 3:
+					delete(pc, "subjectAttributes")
+				case 4:
+					pc["extensions"] = genProfile("x")["extensions"]
+				}
+				profs[k].cfg = pc
+				f := profs[k].file()
+				steps = append(steps, Step{Op: "write", File: &f})
 			case 0, 1:
 				e.cfg = editCfg(e.cfg)
 				for k := range ents {
